@@ -150,10 +150,14 @@ def candidates(sch, draw):
                 def mut(s, p=p, n=len(el["const"])):
                     at_type(s, p)["length"] = n - 1
                 cands.append(("constant-length-rule", pos + "-char", mut))
-            if el["presence"] == "constant" and el["prim"] == "char" and el.get("value_ref") is None and el.get("const"):
-                # text padded with white space (a pretty-printed schema): the raw text is what counts, it is longer than `length`
-                def mut(s, p=p, c=el["const"]):
+            if el["presence"] == "constant":
+                # a char constant whose text is padded with white space (a pretty-printed schema): the raw text is what counts,
+                # and it is longer than `length`.  Any constant can be turned into one (constants take no space in a layout).
+                def mut(s, p=p, c=(el["const"] if (el["prim"] == "char" and el.get("value_ref") is None and el.get("const")) else "ab")):
                     t_ = at_type(s, p)
+                    t_["prim"] = "char"
+                    t_["value_ref"] = None
+                    t_["min"] = t_["max"] = t_["null"] = None
                     t_["length"] = len(c)
                     t_["const"] = draw(st.sampled_from(["  ", " ", "\n    "])) + c + draw(st.sampled_from(["  ", " ", "\n  "]))
                 cands.append(("constant-length-rule", pos + "-char-padded-text", mut))
